@@ -73,6 +73,19 @@ let run (kind : char) (s : z list) : string =
       | _ -> "panic" in
     "ok:" ^ d ^ ";re=" ^ re
 
+let hex_bytes (h : string) : z list =
+  List.init (String.length h / 2) (fun i -> z_of_int (int_of_string ("0x" ^ String.sub h (2 * i) 2)))
+
+(* one call of a sequence: the observation without the re-encoding part *)
+let run_seq_tok (t : string) : string =
+  let kind = t.[0] in
+  let s = hex_bytes (String.sub t 2 (String.length t - 2)) in
+  let skip = kind = 's' && (match sparse_declared s with Some n -> n > max_declared | None -> false) in
+  if skip then "skipped" else
+  match (if kind = 'g' then dense (graph6_decode s) else sparse (sparse6_decode s)) with
+  | E -> "err" | P -> "panic" | F -> "hang"
+  | OkG (n, es) -> "ok:" ^ derived n es
+
 let () =
   try
     while true do
@@ -80,6 +93,7 @@ let () =
       let i = String.index line ';' in
       let kind = line.[0] in
       let toks = split_on ' ' (String.sub line (i + 1) (String.length line - i - 1)) in
+      if kind = 'q' then print_endline (String.concat "|" (List.map run_seq_tok toks)) else
       let s = List.map (fun t -> z_of_int (int_of_string ("0x" ^ t))) toks in
       print_endline (run kind s)
     done
